@@ -21,9 +21,9 @@ Everything here works on `ast` only -- nothing imports or runs SQLAlchemy.
 from __future__ import annotations
 
 import ast
-from typing import Callable, Dict, List, Optional, Tuple
+from typing import Callable, Dict, List, Tuple
 
-from ..astutil import guard_atoms, lexical_guards, name_stores, test_atoms, unparse, walk_local
+from ..astutil import lexical_guards, name_stores, test_atoms, unparse
 
 
 class Unsupported(Exception):
